@@ -1,4 +1,4 @@
-"""Desugaring rules of the actor-wrapper unit family (ORL; DESIGN.md 3.2, R14 family).
+"""Desugaring rules of the actor-wrapper unit family (ORL; DESIGN.md 3.2).
 
 Same conventions as rules.py: every rule is a generic syntactic idiom with captures, captured
 sub-expressions are re-emitted unchanged, `RULE(body, ctx) -> (new_body, fired_count)`, and a rule
@@ -25,22 +25,6 @@ def _sub_code(body, rx, repl):
         n += 1
     out.append(body[pos:])
     return ''.join(out), n
-
-
-def COW_TO_MUT(body, ctx):
-    """`X.to_mut()` -> `cow_to_mut(X)` where X is a single identifier (a `&mut Cow<T>` binding,
-    implicitly reborrowed at the call); `.to_mut()` on a field path raises LostAnchor.
-    `cow_to_mut` is the prelude wrapper (external body `c.to_mut()`) carrying the std contract of
-    `Cow::to_mut`. Everything after `.to_mut()` (field access, method call) is kept as is."""
-    rx = re.compile(r'(?<![A-Za-z0-9_.])(%s)\s*\.\s*to_mut\s*\(\s*\)' % PATH)
-
-    def repl(m):
-        p = re.sub(r'\s+', '', m.group(1))
-        if '.' in p:
-            raise LostAnchor('COW_TO_MUT: `%s.to_mut()` on a field path is not covered' % p)
-        return 'cow_to_mut(%s)' % p
-
-    return _sub_code(body, rx, repl)
 
 
 def REF_ITER(body, ctx):
